@@ -93,6 +93,15 @@ void dynamic_family(Rng &rng) {
             std::string o = outcome([&] { D d(pairs.begin(), pairs.end(), uint8_t(2), uint8_t(1), uint8_t(2)); (void) d; });
             g_out->begin("Try").num("x", g_x++).str("op", "dynamic_bulk").raw("keys", jarr(ks)).str("out", o).end();
         }
+    // (2b) bulk load: the reserved mapped value at each position of a sorted range (and controls without it)
+    for (size_t n = 1; n <= 6; ++n)
+        for (size_t pos = 0; pos <= n; ++pos) {        // pos = n: control without the reserved value
+            std::vector<std::pair<K, V>> pairs;
+            K cur = 10;
+            for (size_t i = 0; i < n; ++i) { pairs.emplace_back(cur, i == pos ? std::numeric_limits<V>::max() : V(i + 1)); cur = K(cur + K(1 + rng.below(2))); }
+            std::string o = outcome([&] { D d(pairs.begin(), pairs.end(), uint8_t(2), uint8_t(1), uint8_t(2)); (void) d; });
+            g_out->begin("Try").num("x", g_x++).str("op", "dynamic_bulk_value").num("n", (long long) n).num("reserved_at", pos < n ? (long long) pos : -1).str("out", o).end();
+        }
     // (3) the reserved mapped value at every point of a short history; the container must stay exactly as it was
     for (int rep = 0; rep < 6; ++rep) {
         D d(uint8_t(2), uint8_t(1), uint8_t(2));
@@ -184,6 +193,17 @@ int main(int argc, char **argv) {
     static_family<uint32_t>(rng); static_family<int32_t>(rng); static_family<uint64_t>(rng); static_family<int64_t>(rng);
     static_family<float>(rng); static_family<double>(rng);
     C_STATIC(int32, int32_t) C_STATIC(int64, int64_t) C_STATIC(uint32, uint32_t) C_STATIC(uint64, uint64_t)
+#define C_DYNAMIC(type, T)                                                                                             \
+    for (size_t n = 1; n <= 5; ++n)                                                                                    \
+        for (size_t pos = 0; pos <= n; ++pos) {                                                                        \
+            std::vector<pair_##type##_t> pairs(n);                                                                     \
+            for (size_t i = 0; i < n; ++i) { pairs[i].first = T(10 + 2 * i); pairs[i].second = i == pos ? std::numeric_limits<T>::max() : T(i + 1); } \
+            auto *p = dynamic_pgm_index_##type##_create(pairs.data(), n);                                              \
+            g_out->begin("Try").num("x", g_x++).str("op", "dynamic_bulk_value").num("n", (long long) n).num("reserved_at", pos < n ? (long long) pos : -1) \
+                .str("out", p ? "ok" : "invalid_argument").end();                                                      \
+            if (p) dynamic_pgm_index_##type##_destroy(p);                                                              \
+        }
+    C_DYNAMIC(int32, int32_t) C_DYNAMIC(int64, int64_t) C_DYNAMIC(uint32, uint32_t) C_DYNAMIC(uint64, uint64_t)
     dynamic_family<uint32_t, uint32_t>(rng);
     dynamic_family<int64_t, uint16_t>(rng);
     dynamic_family<uint64_t, uint64_t>(rng);
